@@ -687,6 +687,72 @@ def case_obj(b, stream, expect=None):
     return o
 
 
+_MONTHS = {"JAN", "FEB", "MAR", "APR", "MAY", "JUN", "JUL", "AUG", "SEP", "OCT", "NOV", "DEC"}
+_DAYS = {"SUN", "MON", "TUE", "WED", "THU", "FRI", "SAT"}
+_MACROS = {"@yearly", "@monthly", "@weekly", "@daily", "@hourly"}
+
+
+def doc_shape(b):
+    """Coarse syntactic recogniser of the documented format plus the tolerated undocumented forms
+    (leading + / zeros in numbers, ? in any field, names before L and #).  It ignores value ranges
+    (those are wf_fields' business).  An ACCEPTED ASCII string outside this shape breaks the format."""
+    import re as _re
+    try:
+        s = b.decode("ascii")
+    except UnicodeDecodeError:
+        return True
+    s = _re.sub(r"[\t\n\f\r ]+", " ", s).strip(" \t\n\v\f\r")
+    if s in _MACROS:
+        return True
+    toks = s.split(" ")
+    if len(toks) not in (6, 7):
+        return False
+
+    def val(t, names, plus=True):
+        if _re.fullmatch(r"\+?[0-9]+" if plus else r"[0-9]+", t):
+            return True
+        return t.upper() in names
+
+    def item(t, names):
+        if "/" in t:
+            parts = t.split("/")
+            if len(parts) != 2 or not _re.fullmatch(r"\+?[0-9]+", parts[1]):
+                return False
+            head = parts[0]
+            if head == "*":
+                return True
+            if "-" in head:
+                r = head.split("-")
+                return len(r) == 2 and val(r[0], names) and val(r[1], names)
+            return val(head, names)
+        if "-" in t:
+            r = t.split("-")
+            return len(r) == 2 and val(r[0], names) and val(r[1], names)
+        return val(t, names)
+
+    def plain(t, names):
+        return t in ("*", "?") or all(item(x, names) for x in t.split(","))
+
+    for i, t in enumerate(toks):
+        names = _MONTHS if i == 4 else (_DAYS if i == 5 else set())
+        if i == 3 and (_re.fullmatch(r"L(-[0-9]+)?", t) or _re.fullmatch(r"[0-9]+W", t) or t == "LW"):
+            continue
+        if i == 5:
+            if t.endswith("L") and "," not in t and "-" not in t and "/" not in t and "#" not in t:
+                pre = t[:-1]
+                if pre == "" or val(pre, names, plus=False):
+                    continue
+                return False
+            if "#" in t:
+                h = t.split("#")
+                if len(h) == 2 and val(h[0], names, plus=False) and _re.fullmatch(r"[0-9]+", h[1]):
+                    continue
+                return False
+        if not plain(t, names):
+            return False
+    return True
+
+
 def judge(b, stream, expect, go):
     """Property-level oracle on what the implementation did (independent of the Coq model) -> list of reasons."""
     why = []
@@ -721,6 +787,8 @@ def judge(b, stream, expect, go):
         why += ["trigger fields: " + w for w in wf_fields(t)]
         if max(b, default=0) < 128 and not token_rule(b):
             why.append("accepted although it does not have 6 or 7 fields and is not a macro")
+        elif max(b, default=0) < 128 and not doc_shape(b):
+            why.append("accepted although a field has none of the documented syntactic forms (value, name of that field, list, range, step; L, L-n, nW, LW; dL, d#k)")
         tv = list(f[0])
         if all(len(v) == 0 for v in tv):
             tv[0] = list(range(60))
